@@ -216,6 +216,23 @@ def _sequential(run, rng, thorough):
                 init_meta.append((case, v))
     finally:
         H.random.randint = real_randint
+    # the same through a real Node: its end-to-end generator is seeded with the node's start time
+    import diameter.node.node as NN
+    real_time = NN.time.time
+    try:
+        for now in [1700000000, 1700001792, 4096 * 415040, 4096 * 415040 + 1, 0xfff, 0x1000, 2 ** 31 + 0x800] + \
+                [rng.randint(1, 2 ** 32 - 1) for _ in range(6)]:
+            NN.time.time = lambda now=now: float(now)
+            node = NN.Node("verif.example.net", "example.net")
+            v = node.end_to_end_seq.sequence
+            case = {"generator": "e2e-init", "through": "Node()", "start_time": now}
+            run.count(1, [("node-init", now)])
+            if node.state_id != now or (v >> 20) != (now & 0xfff) or v == 0 or v > MAX32:
+                run.violation("e2e-init", case, {"state_id": node.state_id, "initial": v},
+                              "high 12 bits = low 12 bits of the node's start time, non-zero",
+                              what="a Node's end-to-end generator does not start with the low 12 bits of its start time in its high 12 bits")
+    finally:
+        NN.time.time = real_time
     return (texts, meta), (sess_texts, sess_meta), (init_texts, init_meta)
 
 
